@@ -88,6 +88,17 @@ macro_rules! kat {
                 got.push(u8::from(pk0.verify(b"cfg", &arr, b"")));
                 want.push(u8::from(refmodel::verify(&pk0c, Mode::Pure, b"cfg", b"", &s)));
             }
+            // malformed private key (one s1 field out of range) must be rejected; a valid one must be accepted and round-trip
+            {
+                let mut bad = kg.sk.clone();
+                bad[128] |= if p.eta == 2 { 0x07 } else { 0x0F };
+                want.push(u8::from(refmodel::sk_fields_in_range(p, &bad)));
+                let arr: [u8; ns::SK_LEN] = bad.try_into().unwrap();
+                got.push(u8::from(ns::PrivateKey::try_from_bytes(arr).is_ok()));
+                let arr: [u8; ns::SK_LEN] = kg.sk.clone().try_into().unwrap();
+                got.push(u8::from(ns::PrivateKey::try_from_bytes(arr).map(|k| k.into_bytes().to_vec() == kg.sk).unwrap_or(false)));
+                want.push(1);
+            }
             // zeroize on drop in this configuration
             let zero = {
                 let n = core::mem::size_of::<ns::PrivateKey>();
